@@ -39,7 +39,7 @@ def run_one(m, args):
     res = {"id": m["id"], "property": m["property"]}
     try:
         if "patch" in m:
-            subprocess.check_call(["git", "apply", "--directory", d, "--unsafe-paths", m["patch"]], cwd=d)
+            subprocess.check_call(["patch", "-p1", "-s", "-i", os.path.join(VERIF, m["patch"])], cwd=d)
         else:
             path = os.path.join(d, m["file"])
             src = open(path).read()
